@@ -436,6 +436,12 @@ def enumerate_corruptions(rng, obj, n_offsets=3, every_byte=False):
         m = re.search(rb'[,:]', b)
         if m:
             inv_c("inventory-whitespace", b[:m.end()] + b" " + b[m.end():], {"edit": "space after first separator"})
+        # one inserted byte that leaves the user address without a valid scheme: uriparse panics inside rocfl
+        # (C17 known finding uri-colon-segment); kept so that the crossover stays visible
+        m = re.search(rb'"mailto:', b)
+        if m:
+            inv_c("inventory-address-scheme", b[:m.start() + 1] + b"0" + b[m.start() + 1:],
+                  {"offset": m.start() + 1, "edit": "digit in front of the address scheme"})
         # another VALID inventory of the same object in its place
         for g in invs:
             if g != f and files[g] != b:
